@@ -377,6 +377,8 @@ func Version(sys semver.System) *rapid.Generator[string] {
 
 // Neighbour mutates a version string into a nearly equal one: the interesting
 // relations live between nearly equal inputs.
+func isLetter(c byte) bool { return c >= 'a' && c <= 'z' || c >= 'A' && c <= 'Z' }
+
 func Neighbour(sys semver.System, base string) *rapid.Generator[string] {
 	return rapid.Custom(func(t *rapid.T) string {
 		k := rapid.IntRange(0, 11).Draw(t, "mut")
@@ -466,6 +468,29 @@ func Neighbour(sys semver.System, base string) *rapid.Generator[string] {
 			case semver.RubyGems:
 				if i := strings.IndexByte(base, '-'); i > 0 {
 					return base[:i] + ".pre." + base[i+1:]
+				}
+			}
+			return base
+		case 9: // replace a qualifier by an alias or a sibling of the same rank
+			var pairs [][2]string
+			switch sys {
+			case semver.Maven:
+				pairs = [][2]string{{"rc", "cr"}, {"cr", "rc"}, {"RC", "CR"}, {"CR", "RC"}, {"alpha", "a"}, {"beta", "b"}, {"milestone", "m"}, {"ga", "final"}, {"final", "release"}, {"release", "ga"}, {"Final", "GA"}, {"sp", "SP"}, {"snapshot", "SNAPSHOT"}, {"a", "alpha"}, {"b", "beta"}, {"m", "milestone"}}
+			case semver.PyPI:
+				pairs = [][2]string{{"alpha", "a"}, {"beta", "b"}, {"rc", "c"}, {"c", "rc"}, {"pre", "rc"}, {"preview", "rc"}, {"rc", "pre"}, {"post", "rev"}, {"rev", "post"}, {"post", "r"}, {".post", "-"}, {"a", "alpha"}, {"b", "beta"}, {"dev", "DEV"}}
+			default:
+				return base
+			}
+			start := rapid.IntRange(0, len(pairs)-1).Draw(t, "aliasstart")
+			for i := range pairs {
+				pr := pairs[(start+i)%len(pairs)]
+				if j := strings.Index(base, pr[0]); j >= 0 {
+					// whole token only: not inside a longer word
+					before := j == 0 || !isLetter(base[j-1])
+					after := j+len(pr[0]) >= len(base) || !isLetter(base[j+len(pr[0])])
+					if before && after {
+						return base[:j] + pr[1] + base[j+len(pr[0]):]
+					}
 				}
 			}
 			return base
